@@ -170,6 +170,20 @@ def main():
                 dM = (4 * d2 - d1) / 3
                 fd.append(float(np.real(np.sum(up * np.conj(dM)))))
             r["fd"] = fd
+            # the same derivative through the public entry point (custom-gradient wrapper and any
+            # fast path in front of the rule), eager tape, both parameters differentiated
+            from piquasso._math import fock as fk
+            get_op = (fk.get_single_mode_displacement_operator if case["kind"] == "displacement"
+                      else fk.get_single_mode_squeezing_operator)
+            rv = tf.Variable(rr, dtype=tf.float64)
+            pv = tf.Variable(phi, dtype=tf.float64)
+            with tf.GradientTape() as tape:
+                M = get_op(r=rv, phi=pv, cutoff=cutoff, complex_dtype=np.complex128, connector=conn)
+                L = tf.math.real(tf.reduce_sum(tf.constant(np.conj(up)) * tf.cast(M, tf.complex128)))
+            g = tape.gradient(L, [rv, pv])
+            r["tape"] = [0.0 if x is None else float(np.real(x.numpy())) for x in g]
+            r["tape_none"] = [x is None for x in g]
+            r["entry_matrix_err"] = float(np.abs(np.asarray(M) - F(rr, phi)).max())
         except Exception as e:
             r["error"] = "%s: %s" % (type(e).__name__, str(e)[:300])
         res.append(r)
